@@ -433,8 +433,8 @@ class LP_Solver:
                 "obj_mincostlsb",
                 lowBound = 0,
                 upBound = self.model.num_students * self.model.num_projects *
-                  student_multiplier + self.model.num_students *
-                  self.model.num_lecturers * lecturer_multiplier,
+                  student_multiplier + sum(self.model.lec_upper_quotas) *
+                  lecturer_multiplier,
                 cat = "Integer")
         sum_costs_exp = LpAffineExpression()
         # Costs for students
